@@ -17,7 +17,7 @@
    K, strandedness, input graph and censor list (repeats and out-of-range ids allowed). *)
 From Coq Require Import NArith List Bool Arith Permutation.
 From DBG Require Import Spec.Dna Spec.GraphIndex Packed.ExtsModel Algo.Compress Algo.GraphModel Algo.Recompress
-  Check.RecompCheck Proofs.AbstractWalk Proofs.RecompCheckProofs Proofs.RecompressProofs.
+  Check.RecompCheck Proofs.AbstractWalk Proofs.RecompCheckProofs Proofs.RecompressProofs Proofs.RecompIdem.
 Import ListNotations.
 Open Scope N_scope.
 
@@ -153,17 +153,32 @@ Proof. exact recompress_nodes. Qed.
 Print Assumptions C09_recompress_nodes_partial.
 
 (* ---- idempotence and the singleton route ---------------------------------------------------------------------- *)
-(* FULL STATEMENTS (not proved at model level; they rest on the two verified checkers below, run on every generated
-   case, and on the exact model/implementation comparison):
-     recompress_idempotent : rvalid g -> (forall x d y t, rnext g x d = Some (y, t) -> y = x) ->
+(* FULL STATEMENTS (not proved at model level in full):
+     recompress_idempotent : rvalid g -> (no two distinct nodes of g mergeable) ->
         compress_graph g None = Some out -> same_nodes K stranded g out
      singleton_route : well-formed table T -> compress_graph (one node per entry of T) None = Some a ->
         compress_kmers T = Some b -> same_partition K stranded a b
-   Proved: soundness of the checkers that decide [same_nodes] / [same_partition] on concrete graphs. *)
-Theorem C09_recompress_idempotent_partial : forall K stranded (a b : graph rpay),
+   Proved for the model: node-level idempotence - a valid graph without a mergeable pair of distinct nodes comes back
+   with every node path a singleton, the same node sequences and the same payloads, in the same order (missing for
+   [same_nodes]: equality of the extension bytes; the theorems above give inclusion).  singleton_route is not proved at
+   model level: it needs C02 same_node_iff for compress_kmers (another work package) next to C09_recompress_maximal.
+   Both full statements are decided on every generated case by the two verified checkers below, whose soundness is
+   proved, run on the implementation's outputs. *)
+Theorem C09_recompress_idempotent_partial : forall D reduce join K stranded, (forall a b, join a b = join b a) ->
+  forall (g : graph D) out paths,
+  rvalid D K stranded g ->
+  (forall g1, restrict D K stranded g (seq 0 (length g)) = Some g1 ->
+     forall x d y t, rnext D join K stranded g1 x d = Some (y, t) -> y = x) ->
+  compress_graph_paths D reduce join K stranded g None = Some (out, paths) ->
+  paths = map (fun i => [(i, DLeft)]) (seq 0 (length g)) /\
+  g_seqs D out = g_seqs D g /\ map (n_data D) out = map (n_data D) g.
+Proof. exact recompress_idempotent_nodes. Qed.
+Print Assumptions C09_recompress_idempotent_partial.
+
+Theorem C09_chk_idempotent_sound : forall K stranded (a b : graph rpay),
   chk_same_nodes K stranded a b = true -> same_nodes K stranded a b.
 Proof. exact chk_same_nodes_sound. Qed.
-Print Assumptions C09_recompress_idempotent_partial.
+Print Assumptions C09_chk_idempotent_sound.
 
 Theorem C09_singleton_route_partial : forall K stranded (a b : graph rpay),
   chk_same_partition K stranded a b = true -> same_partition K stranded a b.
